@@ -84,6 +84,17 @@ OPS = ["=", "<>", "<", "<=", ">", ">="]
 def gen_pred(r: random.Random, depth: int = 0, cols: list | None = None) -> list:
     cols = cols or COLS
     x = r.random()
+    if depth < 2 and x > 0.94:
+        # a sub-predicate next to its own negation: TRUE / FALSE in two-valued logic, UNKNOWN for NULLs in SQL's
+        a, b = gen_pred(r, 2, cols), gen_pred(r, 2, cols)
+        shape = r.randrange(4)
+        if shape == 0:
+            return ["or", a, ["not", a]]
+        if shape == 1:
+            return ["not", ["and", a, ["not", a]]]
+        if shape == 2:
+            return ["or", ["and", a, b], ["and", a, ["not", b]]]
+        return ["and", ["or", a, b], ["or", a, ["not", b]]]
     if depth < 2 and x < 0.3:
         k = r.choice(["and", "or", "not"])
         if k == "not":
